@@ -21,6 +21,7 @@ use std::io::Write;
 use std::path::Path;
 
 const MAX_XML_SIZE: usize = 1024 * 1024 * 10;
+const MAX_XML_DEPTH: usize = 256;
 
 /// Main interface for reading E57 files.
 pub struct E57Reader<T: Read + Seek> {
@@ -57,6 +58,7 @@ impl<T: Read + Seek> E57Reader<T> {
             header.xml_length as usize,
         )?;
         let xml = String::from_utf8(xml_raw).read_err("Failed to parse XML as UTF8")?;
+        Self::check_xml_depth(&xml)?;
         let document = Document::parse(&xml).invalid_err("Failed to parse XML data")?;
         let root = root_from_document(&document)?;
         let pointclouds = PointCloud::vec_from_document(&document)?;
@@ -190,6 +192,63 @@ impl<T: Read + Seek> E57Reader<T> {
 
         // Read XML data
         Self::extract_xml(&mut paged_reader, xml_offset, xml_length as usize)
+    }
+
+    /// The XML parser works recursively and needs stack space for each level of nested elements.
+    /// Extremely deep nested XML from corrupted or malicious files would overflow the stack
+    /// and abort the whole process, so such XML data must be rejected before parsing it.
+    /// Valid E57 files only need a few levels of nested elements.
+    fn check_xml_depth(xml: &str) -> Result<()> {
+        let find = |start: usize, end: &str| match xml[start..].find(end) {
+            Some(offset) => start + offset + end.len(),
+            None => xml.len(),
+        };
+        let bytes = xml.as_bytes();
+        let mut depth = 0_usize;
+        let mut i = 0;
+        while i < bytes.len() {
+            if bytes[i] != b'<' {
+                i += 1;
+            } else if xml[i..].starts_with("<!--") {
+                i = find(i, "-->");
+            } else if xml[i..].starts_with("<![CDATA[") {
+                i = find(i, "]]>");
+            } else if xml[i..].starts_with("<?") {
+                i = find(i, "?>");
+            } else if xml[i..].starts_with("<!") {
+                i = find(i, ">");
+            } else if xml[i..].starts_with("</") {
+                depth = depth.saturating_sub(1);
+                i = find(i, ">");
+            } else {
+                // Start tag, might contain '>' characters inside of quoted attribute values
+                let mut quote = None;
+                let mut last = b'<';
+                i += 1;
+                while i < bytes.len() {
+                    let byte = bytes[i];
+                    match quote {
+                        Some(q) if q == byte => quote = None,
+                        Some(_) => {}
+                        None if byte == b'"' || byte == b'\'' => quote = Some(byte),
+                        None if byte == b'>' => break,
+                        None => {}
+                    }
+                    last = byte;
+                    i += 1;
+                }
+                if last != b'/' {
+                    depth += 1;
+                    if depth > MAX_XML_DEPTH {
+                        Error::invalid(format!(
+                            "XML data with more than {MAX_XML_DEPTH} levels of nested tags is not supported"
+                        ))?
+                    }
+                }
+                i += 1;
+            }
+        }
+        Ok(())
     }
 
     fn get_u64(reader: &mut T, offset: u64, name: &str) -> Result<u64> {
